@@ -78,7 +78,7 @@ IDel(o, i) ==
         ELSE [o EXCEPT !.kind = "SE", !.sp = MapDel(DenseAsMap(o), i), !.dense = <<>>])
   ELSE [o EXCEPT !.sp = MapDel(o.sp, i)]
 IEmpty(arr, len) == [arr |-> arr, len |-> len, lenW |-> TRUE, ext |-> TRUE, sk |-> <<>>,
-                     kind |-> "I32", dense |-> <<>>, sp |-> <<>>]
+                     kind |-> "I32", dense |-> <<>>, sp |-> <<>>, shp |-> <<>>]
 
 \* the object still has the shape of the array template: only "length", writable (string keys change the shape,
 \* preventExtensions does not)
@@ -94,12 +94,24 @@ I == INSTANCE ArrayAlgo WITH ElHas <- IHas, ElGet <- IGet, ElPut <- IPut, ElDel 
 
 ----------------------------------------------------------------------------
 (* boa's paths for the operations of the alphabet *)
-ImplApply(o, op) ==
+ImplApply0(o, op) ==
   IF op.k = "store" /\ o.arr /\ o.ext /\ o.kind \in Dense /\ op.i < Len(o.dense)
   THEN [o |-> [o EXCEPT !.kind = KindFor(o.kind, op.v), !.dense[op.i + 1] = op.v], ret |-> <<"ok">>]   \* set_dense_property
   ELSE IF op.k = "read" /\ o.arr /\ o.kind \in Dense /\ op.i < Len(o.dense)
   THEN [o |-> o, ret |-> <<"v", o.dense[op.i + 1]>>]                                                    \* get_dense_property
   ELSE I!Apply(o, op)
+
+\* The named properties live in a shared shape whose identity is its transition path (see InlineCache.tla, C06):
+\* the order of key insertions and attribute changes is hidden state that later deletions depend on
+\* (remove_property_transition replays the path).  shp records that order, so that histories which reach the
+\* same abstract array through a different order are different states of the enumeration.
+ShapeTrace(o, o2, op) ==
+  IF op.k = "stores" /\ Len(o2.sk) > Len(o.sk) THEN Append(o.shp, <<"ins", op.key>>)
+  ELSE IF op.k = "deletes" /\ Len(o2.sk) < Len(o.sk) THEN SelectSeq(o.shp, LAMBDA e : e[2] # op.key)
+  ELSE IF o2.lenW # o.lenW THEN Append(o.shp, <<"cfg", "length">>)
+  ELSE IF op.k \in {"freeze", "seal"} /\ o2.sk # o.sk THEN Append(o.shp, <<"cfg", "keys">>)
+  ELSE o.shp
+ImplApply(o, op) == LET r == ImplApply0(o, op) IN [r EXCEPT !.o.shp = ShapeTrace(o, r.o, op)]
 
 \* array literal: StoreNewArray, then PushValueToArray / PushElisionToArray per element
 RECURSIVE ILit(_, _)
